@@ -344,7 +344,19 @@ func hostWrite(st variable.Storer, name string, v Val) {
 	}
 }
 
+// activeHost is the host whose runner the plan is stepping right now (deterministic C18 worlds only:
+// trackActive). A host FUNCTION runs synchronously inside Next, so it can only ever be invoked for the
+// runner being stepped; one that arrives at another runner's host has crossed over.
+var (
+	trackActive bool
+	activeHost  *Host
+	foreignCall string
+)
+
 func (h *Host) call(kind, name string, args ...any) {
+	if trackActive && kind == "fn" && activeHost != nil && activeHost != h && foreignCall == "" {
+		foreignCall = fmt.Sprintf("host function %s registered on one runner was invoked while another runner was executing", name)
+	}
 	s := kind + " " + name + "("
 	for i, a := range args {
 		if i > 0 {
@@ -609,6 +621,10 @@ func (h *Host) registerHandler(hs HandlerSpec) {
 			out = []reflect.Type{tChan}
 		case "conv_rochan":
 			out = []reflect.Type{tROChan}
+		case "conv_sendchan": // legal Go, useless to the runner: whatever it does with it, it must not panic
+			out = []reflect.Type{reflect.TypeOf((chan<- error)(nil))}
+		case "conv_errtypechan":
+			out = []reflect.Type{reflect.TypeOf((chan *hostErrT)(nil))}
 		}
 		ft := reflect.FuncOf(in, out, hs.Vari != "")
 		fn := reflect.MakeFunc(ft, func(args []reflect.Value) []reflect.Value {
@@ -654,6 +670,15 @@ func (h *Host) registerHandler(hs HandlerSpec) {
 					rv.Set(reflect.ValueOf(res))
 				}
 				return []reflect.Value{rv}
+			case "conv_sendchan":
+				inv.released = true
+				var so chan<- error = make(chan error, 1)
+				return []reflect.Value{reflect.ValueOf(so)}
+			case "conv_errtypechan":
+				inv.released = true
+				c := make(chan *hostErrT, 1)
+				c <- nil
+				return []reflect.Value{reflect.ValueOf(c)}
 			default:
 				inv.ch = make(chan error, 1)
 				if inv.Sched.Immediate {
@@ -668,10 +693,20 @@ func (h *Host) registerHandler(hs HandlerSpec) {
 			}
 		})
 		if err := h.dr.ConvertAndAddCommand(hs.Name, fn.Interface()); err != nil {
+			if oddShape(hs.Shape) {
+				return // refusing such a handler at registration is as good an answer as any
+			}
 			panic("harness: handler registration failed: " + err.Error())
 		}
 	}
 }
+
+// hostErrT is a concrete error type (a channel of it is not a channel of error).
+type hostErrT struct{ msg string }
+
+func (e *hostErrT) Error() string { return e.msg }
+
+func oddShape(shape string) bool { return shape == "conv_sendchan" || shape == "conv_errtypechan" }
 
 // Release completes invocation i (the host's decision, taken by the plan).
 func (h *Host) Release(i int, failed bool) bool {
